@@ -80,8 +80,8 @@ def strategies():
     t_opt = st.one_of(st.none(), st.none(), st.sampled_from([0.0, 0.05, 0.2, 0.25, 0.6, 1.0, 2.0, 3.5]))
 
     # abort() from another thread released at the moment a given notification is being handled (None = not used)
-    on_evt = st.sampled_from([None, None, None, None, "EVT_RELEASED", "EVT_ESTABLISHED", "EVT_ACCEPTED", "EVT_REQUESTED", "EVT_ABORTED", "EVT_DIMSE_RECV", "EVT_ACSE_RECV"])
-    on_evt_rq = st.sampled_from([None, None, None, None, None, "EVT_RELEASED", "EVT_ESTABLISHED", "EVT_ACSE_RECV", "EVT_DIMSE_SENT"])
+    on_evt = st.sampled_from([None, None, None, None, "EVT_RELEASED", "EVT_ESTABLISHED", "EVT_ACCEPTED", "EVT_REQUESTED", "EVT_ABORTED", "EVT_DIMSE_RECV", "EVT_ACSE_RECV", "EVT_ACSE_SENT:A_RELEASE", "EVT_ACSE_RECV:A_RELEASE"])
+    on_evt_rq = st.sampled_from([None, None, None, None, None, "EVT_RELEASED", "EVT_ESTABLISHED", "EVT_ACSE_RECV", "EVT_DIMSE_SENT", "EVT_ACSE_SENT:A_RELEASE", "EVT_ACSE_RECV:A_RELEASE"])
 
     @st.composite
     def pair(draw):
@@ -166,7 +166,13 @@ def strategies():
                 base += [["recv_idle", 0.3]]  # never answered: the requestor's DIMSE timeout fires
             elif o[0] == "sleep":
                 base += [["sleep", o[1]]]
-        base += [["recv_pdu", 8], ["send", R.ref_encode(R.ReleaseRP())]]
+        rel = draw(st.integers(0, 3))
+        if rel == 0:
+            base += [["recv_pdu", 8]]  # the release request is never answered (ACSE timeout in Sta7 -> abort)
+        elif rel == 1:
+            base += [["recv_pdu", 8], ["send", R.ref_encode(R.ReleaseRQ())], ["recv_pdu", 3], ["send", R.ref_encode(R.ReleaseRP())]]  # release collision
+        else:
+            base += [["recv_pdu", 8], ["send", R.ref_encode(R.ReleaseRP())]]
         pos = draw(st.integers(0, len(base)))
         dev, label = draw(deviation("acceptor")) if draw(st.integers(0, 5)) else ([], "none")
         script = base[:pos] + dev if dev else base
